@@ -85,6 +85,14 @@ class LimCtx:
         it.np_hooks = dict(it.np_hooks or {})
         it.np_hooks["all"] = self._reduction(it, "all")
         it.np_hooks["any"] = self._reduction(it, "any")
+
+        def isclose(args, kwargs):
+            # numpy's definition, tolerances included: |x - y| <= atol + rtol*|y| (defaults 1e-8, 1e-5)
+            x, y = it.lift(args[0]), it.lift(args[1])
+            rtol = kwargs.get("rtol", args[2] if len(args) > 2 else Fraction("1e-5"))
+            atol = kwargs.get("atol", args[3] if len(args) > 3 else Fraction("1e-8"))
+            return A.cmp("<=", A.abs(x - y), A.lift(atol) + A.lift(rtol) * A.abs(y))
+        it.np_hooks["isclose"] = isclose
         v = it.call_function(self.f, [a, b])
         if isinstance(v, (int, Fraction)):
             v = A.const(v)
